@@ -17,30 +17,33 @@ import (
 
 	"github.com/smart-core-os/sc-golang/pkg/middleware/name"
 	"github.com/smart-core-os/sc-golang/pkg/router"
+	"github.com/smart-core-os/sc-golang/pkg/wrap"
 	"github.com/smart-core-os/sc-golang/verifharness/hx"
 )
 
 // script is one case printed by spec/Forward.tla (ForwardGen.cfg).
 type script struct {
-	ID     int    `json:"id"`
-	Name   string `json:"name"`   // the name the caller puts in the request
-	Icpt   bool   `json:"icpt"`   // default-name interceptor installed in front of the router
-	Dflt   string `json:"dflt"`   // ... with this default name
-	Reg    []nc   `json:"reg"`    // clients added to the router before the call
-	HasFb  bool   `json:"hasfb"`  // WithFallback configured
-	Fb     []nc   `json:"fb"`     // ... which knows these names
-	HasFac bool   `json:"hasfac"` // factory configured
-	Fac    []nc   `json:"fac"`    // ... which can create these names
-	Refuse string `json:"refuse"` // how fallback/factory refuse other names: "nil" | "err"
-	Typed  bool   `json:"typed"`  // factory installed through the generated With<Client>Factory
-	K      int    `json:"k"`
-	Hdr    []kv   `json:"hdr"`
-	Trl    []kv   `json:"trl"`
-	ErrAt  int    `json:"errAt"`
-	Code   string `json:"code"`
-	Msg    string `json:"msg"`
-	Cf     int    `json:"cf"`  // caller failure: -1 never, 0 SendHeader, j = j-th Send
-	Rep    int    `json:"rep"` // the same request is issued this many times
+	ID     int      `json:"id"`
+	Name   string   `json:"name"`   // the name the caller puts in the request
+	Icpt   bool     `json:"icpt"`   // default-name interceptor installed in front of the router
+	Dflt   string   `json:"dflt"`   // ... with this default name
+	Reg    []nc     `json:"reg"`    // clients added to the router before the call
+	HasFb  bool     `json:"hasfb"`  // WithFallback configured
+	Fb     []nc     `json:"fb"`     // ... which knows these names
+	HasFac bool     `json:"hasfac"` // factory configured
+	Fac    []nc     `json:"fac"`    // ... which can create these names
+	Refuse string   `json:"refuse"` // how fallback/factory refuse other names: "nil" | "err"
+	Typed  bool     `json:"typed"`  // factory installed through the generated With<Client>Factory
+	K      int      `json:"k"`
+	Hdr    []kv     `json:"hdr"`
+	Trl    []kv     `json:"trl"`
+	ErrAt  int      `json:"errAt"`
+	Code   string   `json:"code"`
+	Msg    string   `json:"msg"`
+	Cf     int      `json:"cf"`     // caller failure: -1 never, 0 SendHeader, j = j-th Send
+	Rep    int      `json:"rep"`    // the same request is issued this many times
+	Via    string   `json:"via"`    // "conn": clients over the recording connection; "wrap": over wrap.ServerToClient around an in-process server
+	Shapes []string `json:"shapes"` // how the child populates its j-th message
 }
 
 type fwdObs struct {
@@ -98,7 +101,17 @@ type fwdWorld struct {
 }
 
 func (fw *fwdWorld) client(id int) any {
-	c := fw.e.NewClient(&fakeConn{w: fw.w, id: id})
+	var cc grpc.ClientConnInterface = &fakeConn{w: fw.w, id: id}
+	if fw.s.Via == "wrap" {
+		// the usual child of a router: an in-process server behind the wrapper.  The server is another
+		// instance of the same generated router that hands everything to the recording connection.
+		leaf := fw.e.NewClient(cc)
+		inner := fw.e.New(router.WithFallback(func(string) (any, error) { return leaf, nil }))
+		cp := &capture{}
+		inner.Register(cp)
+		cc = wrap.ServerToClient(*cp.desc, cp.impl)
+	}
+	c := fw.e.NewClient(cc)
 	fw.ids[c] = id
 	return c
 }
@@ -226,6 +239,7 @@ func (fw *fwdWorld) invoke(desc *grpc.ServiceDesc, mi int, inv int) *fwdObs {
 	// a fresh recording world per invocation, same router and clients
 	w := fw.w
 	w.calls, w.resps, w.trailerEarly, w.orig = nil, nil, false, nil
+	w.shapes = s.Shapes
 	w.cs = childScript{K: s.K, Hdr: mdOf(s.Hdr), Trl: mdOf(s.Trl), ErrAt: s.ErrAt}
 	if s.ErrAt != -1 {
 		w.cs.Err = status.Error(codeOf(s.Code), s.Msg)
